@@ -414,9 +414,10 @@ Fixpoint satisfy_loop (fuel : nat) (s : st) : res st :=
   | S f => bind (satisfy_step s) (fun o => if fst o then satisfy_loop f (snd o) else Ok (snd o))
   end.
 
-(* the final scan of satisfy (solve_VPSC.cpp:316-328) *)
+(* the final scan of satisfy (solve_VPSC.cpp:316-330; since /repo 80a897a it skips active constraints, whose
+   recomputed slack differs from zero only by rounding) *)
 Definition final_scan (s : st) : res st :=
-  match find (fun c => lt_inf (slack s c) (Some ZERO_UPPERBOUND)) (seq 0 (length (scons s))) with
+  match find (fun c => negb (act_of s c) && lt_inf (slack s c) (Some ZERO_UPPERBOUND)) (seq 0 (length (scons s))) with
   | Some c => ThrowUnsat c
   | None => Ok s
   end.
